@@ -18,6 +18,7 @@ ApplyFieldOp(op, fs) ==       \* fs: the signed field list (a sequence)
       [] op = "drop:repository_url" -> SelectSeq(fs, LAMBDA f : f # "repository_url")
       [] op = "drop:command" -> SelectSeq(fs, LAMBDA f : f # "command")
       [] op = "drop:matrix" -> SelectSeq(fs, LAMBDA f : f # "matrix")
+      [] op = "dropdup:repository_url" -> Append(SelectSeq(fs, LAMBDA f : f # "repository_url"), "command")
       [] op = "add:env::UNRELATED" -> Append(fs, "env::UNRELATED")
       [] op = "add:bogus_field" -> Append(fs, "bogus_field")
       [] OTHER -> LET victim == CHOOSE f \in SeqSet(fs) \ Mandatory : op = "drop:" \o f IN SelectSeq(fs, LAMBDA f : f # victim)
@@ -31,7 +32,7 @@ PresRecOf(cc) ==
      value |-> CASE cc.valueop = "splice" -> [Signed.value EXCEPT !.payload = Payload(Signed.alg, Values([NormC(cc.orig) EXCEPT !.command = "another step"], Fn(cc.penv)))]
                  [] cc.valueop = "attach" -> [Signed.value EXCEPT !.form = "attached"]      \* the same signature with the ORIGINAL payload spliced into the value
                  [] cc.valueop = "partial" ->                                                 \* a GENUINE signature of the signer's key over all fields but one mandatory field
-                      LET dropped == IF cc.fieldop = "drop:command" THEN "command" ELSE "matrix"
+                      LET dropped == IF cc.fieldop = "drop:command" THEN "command" ELSE IF cc.fieldop = "dropdup:repository_url" THEN "repository_url" ELSE "matrix"
                           v == Values(NormC(cc.orig), Fn(cc.penv))
                       IN [Signed.value EXCEPT !.payload = Payload(Signed.alg, Restrict(v, DOMAIN v \ {dropped}))]
                  [] cc.valueop = "bitflip" -> [Signed.value EXCEPT !.payload = Payload("garbage", <<>>)]
